@@ -32,9 +32,9 @@ def convert(rec):
     return {"cfg": rec["cfg"], "real": 2, "cmds": cmds}
 
 
-def schedules(num, depth, seed, timeout=900):
+def schedules(num, depth, seed, timeout=900, cfg="MC_MuxSched.cfg"):
     meta = tempfile.mkdtemp(prefix="sch_", dir=vlib.WORK)
-    cmd = ["timeout", str(timeout)] + vlib.tlc_cmd("MC_MuxSched.tla", "MC_MuxSched.cfg", 1, meta,
+    cmd = ["timeout", str(timeout)] + vlib.tlc_cmd("MC_MuxSched.tla", cfg, 1, meta,
           extra=["-simulate", f"num={num}", "-depth", str(depth), "-seed", str(seed)])
     rc, out = vlib.run(cmd, timeout=timeout + 30, cwd=vlib.SPEC)
     shutil.rmtree(meta, ignore_errors=True)
@@ -52,6 +52,27 @@ def schedules(num, depth, seed, timeout=900):
             res.append(s)
     ms = re.search(r"The number of states generated: (\d+)", out)
     return res, int(ms.group(1)) if ms else 0
+
+
+def fault_enumeration(bases, step=3):
+    """C08: from fault-free schedules, inject every end-of-connection cause at every `step`-th prefix on
+    each endpoint; the run to quiescence that follows must resolve everything."""
+    out = []
+    kinds = [("fault", "cutsrc"), ("fault", "endsrc"), ("fault", "cutsink"), ("fault", "softcut"),
+             ("drop_mux", None), ("close", None), ("junk", None)]
+    for b in bases:
+        cmds = [c for c in b["cmds"] if c["op"] not in ("quiesce", "drop_mux")]
+        for p in range(0, len(cmds) + 1, step):
+            for e in ("A", "B"):
+                for op, kind in kinds:
+                    if op == "fault":
+                        f = {"op": "fault", "e": e, "kind": kind}
+                    elif op == "drop_mux":
+                        f = {"op": "drop_mux", "e": e}
+                    else:
+                        f = {"op": "inject", "e": e, "m": {"op": op}}
+                    out.append({"cfg": b["cfg"], "real": 2, "cmds": cmds[:p] + [f, {"op": "quiesce", "lazy": False}]})
+    return out
 
 
 if __name__ == "__main__":
